@@ -4,6 +4,7 @@ mod rng;
 mod sx;
 mod c31;
 mod par;
+mod idents;
 mod roundtrip;
 mod scanlist;
 mod c32;
@@ -67,6 +68,7 @@ fn main() {
     match a.cmd.as_str() {
         "c31" => c31::run(&a),
         "par" => par::run(&a),
+        "idents" => idents::run(&a),
         "roundtrip" => roundtrip::run(&a),
         "scanlist" => scanlist::run(&a),
         "c32" => c32::run(&a),
